@@ -320,39 +320,6 @@ theorem ws_meas (s : IS) : s.ws.meas ≤ s.meas := by
 theorem meas_pos_of_good {s : IS} (h : s.good = true) : 1 ≤ s.meas := by simp [IS.meas, h]
 theorem meas_zero_of_not_good {s : IS} (h : ¬ s.good = true) : s.meas = 0 := by simp [IS.meas, h]
 
-theorem recoverOuter_terminates : ∀ (fuel : Nat) (s : IS) (c : Byte) (len steps : Nat),
-    s.meas + 1 ≤ fuel → ∃ r, recoverOuter fuel s c len steps = .ok r := by
-  intro fuel
-  induction fuel with
-  | zero => intro s c len steps h; omega
-  | succ fuel ih =>
-    intro s c len steps h
-    unfold recoverOuter
-    by_cases hg : s.good = true
-    · simp only [hg, Bool.not_true, Bool.false_eq_true, if_false]
-      have hpos := meas_pos_of_good hg
-      obtain ⟨s1, c1, len1, steps1, he, h1, _, h3⟩ := recoverInner_terminates (fuel + 1) s c len steps h
-      rw [he]
-      simp only []
-      split
-      · have hw := ws_meas s1
-        have hgm := get_meas s1.ws
-        generalize s1.ws.get = g at hgm
-        obtain ⟨s3, o⟩ := g
-        have : s3.meas + 1 ≤ fuel := by
-          simp only [] at hgm
-          rcases hgm with hgm | ⟨_, hgm⟩ <;> omega
-        cases o <;> simp only [] <;> split <;> first | exact ⟨_, rfl⟩ | exact ih _ _ _ _ this
-      · rename_i hcond
-        have : s1.meas = 0 := by
-          by_cases hg1 : s1.good = true
-          · have := h3 hg1; simp [hg1, this] at hcond
-          · exact meas_zero_of_not_good hg1
-        exact ih _ _ _ _ (by omega)
-    · simp at hg
-      simp [hg]
-
-
 /-! ### ReadTokenSeparator -/
 
 theorem ignore_m (s : IS) : s.ignore.m + 1 ≤ s.m ∨ s.ignore.m = 0 ∨ s.rest = [] := by
